@@ -133,6 +133,20 @@ Theorem C06_histogram_quantile_lies_in_the_rank_bucket : forall (pinf : QArith_b
 Proof. exact BucketRange.quantile_in_rank_bucket. Qed.
 Print Assumptions C06_histogram_quantile_lies_in_the_rank_bucket.
 
+(* on a histogram that is already sorted, merged and monotone the preprocessing changes nothing:
+   bucket_quantile is bq_core, so the statement above is about histogram_quantile's value *)
+Theorem C06_histogram_quantile_is_core_on_wellformed_histograms : forall (pinf ninf q : QArith_base.Q) m,
+  BucketRange.chain m -> QArith_base.Qle (QArith_base.inject_Z 0) q -> QArith_base.Qle q (QArith_base.inject_Z 1) ->
+  Bucket.bucket_quantile QArith_base.Q RangeArithProofs.qops pinf ninf q m = Bucket.bq_core QArith_base.Q RangeArithProofs.qops pinf q m.
+Proof. exact BucketRange.bucket_quantile_is_core. Qed.
+Print Assumptions C06_histogram_quantile_is_core_on_wellformed_histograms.
+
+Example C06_histogram_chain_example :
+  BucketRange.chain [Bucket.mkB QArith_base.Q (Some (QArith_base.inject_Z 1)) (QArith_base.inject_Z 2);
+                     Bucket.mkB QArith_base.Q (Some (QArith_base.inject_Z 2)) (QArith_base.inject_Z 6);
+                     Bucket.mkB QArith_base.Q None (QArith_base.inject_Z 8)].
+Proof. exact BucketRange.chain_example. Qed.
+
 Example C06_histogram_wellformed_example :
   BucketRange.wf_hist [Bucket.mkB QArith_base.Q (Some (QArith_base.inject_Z 1)) (QArith_base.inject_Z 2);
                        Bucket.mkB QArith_base.Q (Some (QArith_base.inject_Z 2)) (QArith_base.inject_Z 6);
